@@ -20,6 +20,25 @@ CHECKS = {
         note=AX_R + 'translator py2coq and its validation run; numpy indexing/broadcasting of the builders is modelled by hand '
              '(Model/Matrices.v) and tied by correspondence only; location records are assumed to share one station order.',
         design='6 C11'),
+    'C02': dict(
+        technique='Coq proof over R (lra/nra) about kernels translated from the argument of np.log in polarity_ln_pdf and polarity_probability_ln_pdf on every run, erf as a section variable with stated hypotheses',
+        text='Theorems in coq/Props/C02.v about pol_p/polprob_p as regenerated from the current source: documented formula, range [0,1], '
+             'the two polarities sum to one, monotone in the amplitude for w<1/2, zero uncertainty gives the hard 0/1 limit (given the '
+             'saturation of the binary64 erf), documented Heaviside mixture with its three cases. Holds for every real amplitude, '
+             'uncertainty and mispick probability, which three literal test values cannot establish.',
+        note=AX_R + 'erf hypotheses (odd, non-decreasing, in [-1,1], erf t = 1 for t >= 6) validated on samples only; NaN-freedom is not a '
+             'theorem (no float model of erf/log): it is judged on the implementation by the extreme-input stream; array plumbing '
+             '(sum over stations, broadcasting of per-station values) is tied by correspondence only.',
+        design='6 C02'),
+    'C04': dict(
+        technique='Coq proof over R (list induction, ln/exp lemmas) about the per-slice term translated from ln_marginalise / ln_normalise on every run (np.sum, np.max lifted to list operators)',
+        text='Theorems in coq/Props/C04.v: the translated per-slice computation equals ln(dV * sum exp x) for every non-empty slice and '
+             'dV>0, commutes with adding a constant, normalised values times dV sum to one and are shift invariant, and the shift '
+             'used is minus the slice maximum so that all exp arguments are <= 0 with one equal to 0 (sum in [dV, n dV]): no overflow '
+             'or total underflow for any magnitudes. The unit tests use four small values.',
+        note=AX_R + 'finite entries only in the real-valued model; -inf entries, container types (ndarray/matrix/LnPDF), axes and rounding '
+             'are judged on the implementation against 40-digit mpmath; one known finding (axis of length 1 ignores dV).',
+        design='6 C04'),
 }
 
 NA_REASON = 'check not built yet (work in progress; see DESIGN.md section 6)'
